@@ -304,7 +304,29 @@ func sitesOf(name string, fd *ast.FuncDecl, fields, funcs map[string]*ast.MapTyp
 					case "TopologicalSort":
 						sites = append(sites, nondetSite{name, "graph.TopologicalSort", "toposort"})
 					case "StableTopologicalSort":
-						sites = append(sites, nondetSite{name, "graph.StableTopologicalSort", "stabletoposort"})
+						// the order is canonical only if the comparator is a strict TOTAL order on the vertex keys:
+						// `func(a, b K) bool { return a < b }` (parameter names normalised); anything else is "custom"
+						kind := "stabletoposort-custom"
+						if len(x.Args) == 2 {
+							if fl, ok := x.Args[1].(*ast.FuncLit); ok && fl.Type.Params != nil && len(fl.Body.List) == 1 {
+								var ps []string
+								for _, f := range fl.Type.Params.List {
+									for _, n := range f.Names {
+										ps = append(ps, n.Name)
+									}
+								}
+								if r, ok := fl.Body.List[0].(*ast.ReturnStmt); ok && len(r.Results) == 1 && len(ps) == 2 {
+									if be, ok := r.Results[0].(*ast.BinaryExpr); ok && be.Op.String() == "<" {
+										l, lok := be.X.(*ast.Ident)
+										rr, rok := be.Y.(*ast.Ident)
+										if lok && rok && l.Name == ps[0] && rr.Name == ps[1] {
+											kind = "stabletoposort"
+										}
+									}
+								}
+							}
+						}
+						sites = append(sites, nondetSite{name, "graph.StableTopologicalSort", kind})
 					}
 				}
 			}
